@@ -158,6 +158,20 @@ class SymInt(object):
         q = self._floordiv(a, b)
         return a - q * b
 
+    def __divmod__(self, o):
+        b = self._lift(o)
+        if b is None:
+            return NotImplemented
+        if not (isinstance(b, int) and b == 0) and isinstance(o, int) and o == 0:
+            raise ZeroDivisionError('integer division or modulo by zero')
+        return (self.__floordiv__(o), self.__mod__(o))
+
+    def __rdivmod__(self, o):
+        b = self._lift(o)
+        if b is None:
+            return NotImplemented
+        return (self.__rfloordiv__(o), self.__rmod__(o))
+
     def __mod__(self, o):
         b = self._lift(o)
         if b is None:
